@@ -17,7 +17,7 @@ from props.common import account
 import props.krylov_cases as kc
 
 DRIVERS = ["krylov"]
-TMO = 600   # seconds per driver shard: a diverging (mutated) solver makes the exact rationals explode
+TMO = 300   # seconds per driver shard: a diverging (mutated) solver makes the exact rationals explode
 MODEL = "krylov"
 TRUSTED_BASE = [
     "Extract_krylov.v via ExtractCommon.v (Z.ggcd realised by zarith gcd)",
